@@ -301,3 +301,104 @@ def targets():
     ts.append(target_reset("reset_parameters"))
     ts.append(target_getters())
     return ts
+
+
+# ------------------------------------------------------------------------------------------------ containers
+def target_container_copy(which: str):
+    """Container.__copy__ / __deepcopy__: the copy carries the same values, limits and fixed flags, its sub-circuits are the
+    copies of the original's sub-circuits (None stays None), nothing raises for an element with Inv and values within limits."""
+    qual = f"Container.{which}"
+
+    def run(sess: Session):
+        from pyvc.symex import Contract
+        I = z3.IntSort()
+        NONE_ID = z3.IntVal(-1)
+        copy_of = z3.Function("copy_of_connection", I, I)
+        st, klass, me = base_state()
+        st.ghost["klass"] = klass
+        v0 = View(st.clone(), me)
+        st.pc.append(within_limits(View(st, me)))
+        SUB = DictV.symbolic("subcircuits", Key, I)
+        sub_ref = st.alloc(SUB)
+        pre = st.clone()
+        ex = make_executor(sess, strict_calls=True)
+        ex.none_as = NONE_ID
+        created = {}
+
+        def new_container(ex_, s, cls, args, kwargs, line):
+            maps = kwargs.get("**")
+            maps = list(maps[1:]) if isinstance(maps, tuple) and maps and maps[0] == "multi" else [maps]
+            vals, subs = s.deref(maps[0]), s.deref(maps[1])
+            inst = E.new_instance(s, klass, f"copy{line}")
+            v1 = View(s, inst)
+            kk = k_()
+            ex_.oblige("call-pre", s, z3.ForAll([kk], z3.Implies(vals.has(kk), v1.keys(kk))), line, "Container(**values, **subcircuits):parameter keys are the class's keys")
+            s.pc.append(E.init_post(View(s, klass), v1, vals))
+            s.deref(inst).fields["_label"] = ""
+            created["inst"], created["subs"] = inst, subs
+            return [(inst, s)]
+        ex.contracts["new:Element"] = Contract("new:Element", new_container)
+        ex.inline["get_subcircuits"] = None
+        del ex.inline["get_subcircuits"]
+        ex.contracts["get_subcircuits"] = Contract("get_subcircuits", lambda ex_, s, recv, a, kw, line: [(s.alloc(DictV(SUB.dom, SUB.val, Key, I)), s)])
+        # v.__copy__() / v.__deepcopy__(memo) on a sub-circuit id, `v is not None`
+        orig_ga = ex.getattr
+
+        def ga(base, attr, s, node=None):
+            if z3.is_expr(base) and base.sort() == I and attr in ("__copy__", "__deepcopy__"):
+                return ("subcopy", base)
+            return orig_ga(base, attr, s, node)
+        ex.getattr = ga
+        orig_call = ex.call
+
+        def call(f, args, kwargs, starkw, s, node):
+            if isinstance(f, tuple) and f[0] == "subcopy":
+                return [(copy_of(f[1]), s)]
+            return orig_call(f, args, kwargs, starkw, s, node)
+        ex.call = call
+        orig_identical = ex.identical
+
+        def identical(l, r, s):
+            from pyvc.values import NoneV
+            for a, b in ((l, r), (r, l)):
+                if isinstance(b, NoneV) and z3.is_expr(a) and a.sort() == I:
+                    return a == NONE_ID
+            return orig_identical(l, r, s)
+        ex.identical = identical
+        args = []
+        if which == "__deepcopy__":
+            memo_v = DictV.symbolic("memo", I, I)
+            st.pc.append(z3.Not(memo_v.has(z3.IntVal(777))))        # this element has not been copied yet in this deepcopy
+            memo = st.alloc(memo_v)
+            args = [memo]
+            ex.consts["id"] = ("builtin", lambda ex_, s, a, kw, n: [(z3.IntVal(777), s)])
+        outs = _call(ex, qual, st, me, args=args)
+        n = 0
+        for val, s1 in outs:
+            if isinstance(val, Raised):
+                sess.check("exc-free", s1.pc, z3.BoolVal(False), val.exc.line, label=f"container-copy-raises-{val.exc.name}")
+                continue
+            n += 1
+            if not isinstance(val, Ref):
+                sess.check("post", s1.pc, z3.BoolVal(False), 0, label="returns the copy")
+                continue
+            vc = View(s1, val)
+            sess.check("post", s1.pc, z3.And(same_dict(vc.value, v0.value), same_dict(vc.lower, v0.lower), same_dict(vc.upper, v0.upper), same_dict(vc.fixed, v0.fixed)), 0, label="copy-equals-original (values, limits, fixed)")
+            sess.check("post", s1.pc, unchanged(v0, View(s1, me)), 0, label="original-untouched")
+            subs = created.get("subs")
+            kk = k_()
+            ok = subs is not None
+            sess.check("post", s1.pc, z3.ForAll([kk], z3.And(subs.has(kk) == SUB.has(kk), z3.Implies(SUB.has(kk), subs.get(kk) == z3.If(SUB.get(kk) == NONE_ID, NONE_ID, copy_of(SUB.get(kk)))))) if ok else z3.BoolVal(False), 0,
+                       label="sub-circuits of the copy are the copies of the original's sub-circuits (open stays open)")
+            sess.check("frame", s1.pc, z3.BoolVal(val.addr != me.addr), 0, label="a new object")
+            sess.check("frame", s1.pc, z3.And(*[same_dict(View(pre, klass).d(n_), View(s1, klass).d(n_)) for n_ in (DVAL, DLO, DUP, DFX)]), 0, label="class-defaults")
+            sess.check("canary", s1.pc, z3.BoolVal(False), 0, label="ensures-False", expect_refuted=True)
+        sess.check("cover", [], z3.BoolVal(n > 0), 0, label="normal-exit-reachable")
+    return (f"{E.MOD}:{qual}", E.MOD, qual, run)
+
+
+_targets_elements = targets
+
+
+def targets():      # noqa: F811
+    return _targets_elements() + [target_container_copy("__copy__"), target_container_copy("__deepcopy__")]
